@@ -342,7 +342,12 @@ def extra(mon, ctx):
             mon.count('main_runs_with_a_minimum_confidence')
             if any(abs(c - min_conf) < 1e-6 for c in best_conf):
                 continue
-            want = [t for t, c in zip(want, best_conf) if c > min_conf]
+            # a line that some engine read with a positive confidence is dropped iff that maximum does not exceed the minimum; a line that no engine read with a positive
+            # confidence keeps whatever confidence it came with (the statement records a maximum only 'when positive'), so nothing is demanded for it
+            ids = [l.id for l in loaded[0].lines_iterator()]
+            got_by_id = {l.id: l.transcription for l in out.lines_iterator()}
+            got = [got_by_id.get(i, '<dropped>') for i, c in zip(ids, best_conf) if c > 0]
+            want = [(t if c > min_conf else '<dropped>') for t, c in zip(want, best_conf) if c > 0]
         norm = lambda t: t if t else None
         if [norm(x) for x in got] != [norm(x) for x in want]:
             mon.violation('keeps-most-confident-transcription', {'via': 'main()', 'directories': names, 'got': got, 'expected': want, 'confidences': confs})
